@@ -7,7 +7,7 @@ def cchar(b):
     return "char(%d)" % (b if b < 128 else b - 256)
 
 
-def tu_source(g, gid=None):
+def tu_source(g, gid=None, dflt=()):
     """g: gram.Grammar.  Terms are typed char terms with the observing functor, every rule gets RuleF{index}."""
     gid = gid or g.name
     o = ['#include "rt.hpp"', 'using namespace ctpg;', 'using vh::Node;', 'namespace G {',
@@ -25,7 +25,7 @@ def tu_source(g, gid=None):
         r = 'n%d(%s)' % (ntid[l], args)
         if prec != 0:
             r = '(%s[%d])' % (r, prec)
-        rl.append('        %s >= vh::RuleF{%d}' % (r, ri))
+        rl.append('        %s' % r if ri in dflt else '        %s >= vh::RuleF{%d}' % (r, ri))
     o.append('auto make() { return new parser(n%d,' % ntid[g.root])
     o.append('    terms(%s),' % ', '.join('t%d' % i for i in range(len(g.ts))))
     o.append('    nterms(%s),' % ', '.join('n%d' % i for i in range(len(g.nts))))
@@ -35,7 +35,7 @@ def tu_source(g, gid=None):
     return '\n'.join(o) + '\n'
 
 
-def tla_json(g, gid=None):
+def tla_json(g, gid=None, dflt=()):
     """Same JSON shape as gram.HostGrammar.tla_json, for an exact (generated TU) grammar."""
     gid = gid or g.name
     ntid = {n: i for i, n in enumerate(g.nts)}
@@ -56,7 +56,7 @@ def tla_json(g, gid=None):
         'id': gid, 'nnt': nnt, 'nt': nt, 'root': ntid[g.root], 'rules': rules, 'used': [1] * len(rules),
         'tprec': [g.tprec.get(t, 0) for t in g.ts], 'tassoc': [g.tassoc.get(t, 0) for t in g.ts],
         'tbytes': [ord(t) for t in g.ts], 'tnames': tn, 'ntnames': names_nt, 'ruletext': texts,
-        'lex': 'chars', 'lexterms': [], 'obsT': True, 'obsC': True, 'alpha': [ord(t) for t in g.ts],
+        'lex': 'chars', 'lexterms': [], 'dflt': sorted(dflt), 'obsT': True, 'obsC': True, 'alpha': [ord(t) for t in g.ts],
         'uterms': list(range(nt)),
     }
 
@@ -109,4 +109,4 @@ def lex_tla_json(gid, terms):
     return {'id': gid, 'nnt': 1, 'nt': nt, 'root': 0, 'rules': rules, 'used': [1] * len(rules),
             'tprec': [0] * nt, 'tassoc': [0] * nt, 'tbytes': [0] * nt, 'tnames': tn, 'ntnames': ['N0', '##'], 'ruletext': texts,
             'lex': 'ref', 'lexterms': [{'kind': t[0], 'data': ([t[1]] if t[0] == 'C' else list(t[1]))} for t in terms],
-            'obsT': True, 'obsC': True, 'alpha': [], 'uterms': list(range(nt))}
+            'dflt': [], 'obsT': True, 'obsC': True, 'alpha': [], 'uterms': list(range(nt))}
